@@ -605,6 +605,8 @@ const MALFORMED_ARGS: &[&str] = &[
     "\"a\", ignore()", "\"a\", ignore(case, case)", "\"a\", allow_greedy = maybe", "\"a\", allow_greedy = true, allow_greedy = false", "\"a\", callback", "\"a\", unknown = 3",
     "", "1", "\"a\" \"b\"", "\"a\",, f", "b'a'", "\"a\", |x y| 1", "\"a\", |lex|", "\"a\", ignore(ascii_case)", "\"a\", callback = |a, b| 1", "'a'", "\"a\", priority = -1",
     "\"a\", =", "\"a\", #", "\"a\", ?", "\"a\", ;", "\"a\", ::", "\"a\", ->", "\"a\", =>", "\"a\", @", "\"a\", ~", "\"a\", 'a", "\"a\",, f, priority = 2", "\"a\", priority = 2,, f", "\"a\", $",
+    // a keyword as the parameter of an inline callback
+    "\"a\", |fn| ()", "\"a\", |match| 1", "\"a\", callback = |struct| ()", "\"a\", |let| true", "\"a\", priority = 2, callback = |mut| ()", "\"a\", |'a| ()", "\"a\", |1| ()",
     // inline callbacks whose body is not an expression / a block
     "\"a\", |lex| = 3", "\"a\", |lex| let x", "\"a\", |lex| #", "\"a\", |lex| ,", "\"a\", |lex| { let }", "\"a\", |lex| { = }", "\"a\", callback = |lex| =>", "\"a\", |lex| ..=", "\"a\", |lex| 1 2",
     "\"a\", |lex| { 1 } }", "\"a\", |lex| else", "\"a\", priority = 2, callback = |lex| +",
@@ -612,6 +614,7 @@ const MALFORMED_ARGS: &[&str] = &[
 ];
 
 const MALFORMED_ITEMS: &[&str] = &[
+    "crate = lg<u8>", "crate = a::b::<c>", "crate = ::logos::<'a>", "crate = <T as U>::logos", "skip(\"a\", |fn| ())", "error(E, |type| E)", "error(E, callback = |in| E)",
     "skip(\"a\", |lex| = 3)", "error(E, |lex| =)", "skip(\"a\", callback = |lex| { let })", "error(E, callback = |lex| #)",
     "skip(\"a\",, foo)", "error(E,, foo)", "skip(\"a\", =)", "error(E, #)", "skip(\"a\", ?)", "error(E, ->)", "skip(\"a\", callback = ,, f)",
     "extras = HashMap<String, u32>", "error = Result<u8, u8>", "extras = ", "error = ", "extras = 1 + 2", "error = 1 + 2", "crate = \"x\"", "crate = a::<b, c>", "crate = ",
@@ -625,6 +628,16 @@ const MALFORMED_ITEMS: &[&str] = &[
 /// Complete malformed sources that do not fit the templates (bare attributes, const generics, legacy
 /// attributes, malformed nested groups, bad subpattern names, patterns that do not compile).
 const RAW_MALFORMED: &[&str] = &[
+    // enum items that rustc's parser recovers from (or accepts) and hands to the derive although syn cannot parse them
+    "#[derive(Logos)]\nenum T { #[token(\"a\")] A  #[token(\"b\")] B }\n",
+    "#[derive(Logos)]\nenum T { #[token(\"a\")] A(dyn) }\n",
+    "#[derive(Logos)]\nenum T { #[token(\"a\")] A(impl) }\n",
+    "#[derive(Logos)]\nenum T { #[token(\"a\")] A(u8 = 3) }\n",
+    "#[derive(Logos)]\nenum T { #[token(\"a\")] A, #[token(\"b\")] B(Box<dyn 'static>) }\n",
+    "#[derive(Logos)]\nenum T { #[token(\"a\")] A;  #[token(\"b\")] B }\n",
+    "#[derive(Logos)]\nenum T { #[token(\"a\")] A = , #[token(\"b\")] B }\n",
+    "#[derive(Logos)]\nenum { #[token(\"a\")] A }\n",
+    "#[derive(Logos)]\nenum T<> where { #[token(\"a\")] A(,) }\n",
     "#[derive(Logos)]\n#[logos]\nenum T { #[token(\"a\")] A }\n",
     "#[derive(Logos)]\n#[logos = \"x\"]\nenum T { #[token(\"a\")] A }\n",
     "#[derive(Logos)]\nenum T { #[token] A }\n",
